@@ -204,8 +204,10 @@ def bind2_decorators(ctx, modules: Iterable[str]) -> int:
             if i < 0 or i >= len(pp):
                 problems.append(f"static position {i} out of range (function has {len(pp)} parameters)")
         for i, prm in enumerate(pp):
-            handler = (prm.name == "self" and fi.cls is not None) or \
-                p.annotation_class(mod, prm.annotation) is not None
+            ac = p.annotation_class(mod, prm.annotation)
+            if ac is not None and getattr(p.classes.get(ac), "is_namedtuple", False):
+                ac = None       # a NamedTuple of arrays is a pytree of data, traced like any other array argument
+            handler = (prm.name == "self" and fi.cls is not None) or ac is not None
             if handler and i not in st:
                 problems.append(f"handler parameter '{prm.name}' (position {i}) is not static")
             if i in st and prm.annotation is not None and \
